@@ -51,9 +51,9 @@ Proof. split; [repeat constructor|]. split; [repeat constructor|]. vm_compute. r
    of exactly the cells whose name the taxonomy sends to the cluster of row r; a cell the
    taxonomy does not name is in no `members` list.  The lookup is characterised by the
    taxonomy's leaf level (cluster -> cell names, a later entry wins as in the dict).
-   Hypotheses = what the code enforces or the input guarantees: cluster names unique
+   (hypotheses = what the code enforces or the input guarantees: cluster names unique
    (keys of a dict), every file has ng genes in the same order (else Err E_GENES) and
-   rows of ng numbers. *)
+   rows of ng numbers). *)
 Theorem c09_partition_independent : forall D leaf files rows_at_a_time n_processors ng,
   NoDup (map fst leaf) -> (1 <= rows_at_a_time)%nat -> (1 <= n_processors)%nat ->
   files_wf ng files ->
